@@ -26,6 +26,9 @@ func nameSpaceEvaluation(
 		ctx.SetFrame(base.CalculateFrame(frame, parentClass))
 		t = base.MakeClass(t.ToString())
 
+		// the class value remembers its namespace (Beta::Item is not Item)
+		t.SetFrame(base.CalculateFrame(frame, parentClass))
+
 	case t.IsConstIdentifier():
 		ctx.SetFrame(base.CalculateFrame(frame, parentClass))
 		t = base.MakeConst(t.ToString())
